@@ -614,6 +614,35 @@ def provenance(fn, start, pass_through=PASS_THROUGH, follow_all_call_args=False,
     return org
 
 
+def nearest_user_local(fn, operand):
+    """the user variable (or parameter) an operand borrows / copies from, following refs, copies and Deref only"""
+    cur = op_local(operand) if isinstance(operand, dict) and 'k' in operand else operand
+    seen = set()
+    while cur is not None and cur not in seen:
+        seen.add(cur)
+        if cur in fn.user or fn.is_param(cur):
+            return cur
+        d = fn.single_def(cur)
+        if d is None:
+            return None
+        bb, idx, kind, node = d
+        if kind == 'stmt':
+            r = node['r']
+            if r['rv'] in ('ref', 'rawptr'):
+                cur = r['pl']['l']
+            elif r['rv'] == 'use' and is_place(r['ops'][0]):
+                cur = r['ops'][0]['pl']['l']
+            else:
+                return None
+        else:
+            c = fn.call_at[bb]
+            if c.short in ('deref', 'deref_mut', 'as_slice', 'as_mut_slice', 'iter', 'iter_mut', 'into_iter', 'borrow', 'borrow_mut', 'as_ref', 'as_mut'):
+                cur = c.arg_local(0)
+            else:
+                return None
+    return None
+
+
 def expr_leaves(fn, operand, max_nodes=200):
     """walk the expression that computes `operand`, through compiler temporaries only: stops at user variables and
     parameters. Returns (user_locals, consts, binop_names, calls)."""
